@@ -22,7 +22,7 @@ def _min_image_clash(X, existing, cell, dmin):
     return False
 
 
-PREFIX_TWINS = {"C": ["Cl", "Cu", "Co", "Ca"], "N": ["Ni", "Na", "Nb"], "O": ["Os"], "H": ["He", "Hf", "Hg"], "F": ["Fe"],
+PREFIX_TWINS = {"Cl": ["C"], "Cu": ["C"], "Br": ["B"], "Zr": ["Zn"], "C": ["Cl", "Cu", "Co", "Ca"], "N": ["Ni", "Na", "Nb"], "O": ["Os"], "H": ["He", "Hf", "Hg"], "F": ["Fe"],
                 "S": ["Si", "Sn", "Se", "Sr"], "B": ["Br", "Ba", "Be"], "P": ["Pt", "Pd", "Pb"]}
 
 
@@ -105,6 +105,15 @@ def gen_find_world(rng, max_atoms=48, max_copies=6, families=None, cell_families
         P = (P - P[a1]) @ B.T
         P[a1] = 0.0
         P[a2] = [L, 0.0, 0.0]
+        if rng.random() < 0.3:
+            # ... or exactly along a body diagonal: three components of bitwise equal magnitude
+            s_ = L / math.sqrt(3.0)
+            P = P @ geom._rot_u_to_v(np.array([1.0, 0.0, 0.0]), np.ones(3) / math.sqrt(3.0)).T
+            P[a1] = 0.0
+            P[a2] = [s_, s_, s_]
+            P = P * np.array([rng.choice([1.0, -1.0]) for _ in range(3)]) if rng.random() < 0.5 else P
+            if np.linalg.det(np.diag(np.sign(P[a2]))) < 0:
+                P = P[:, [1, 0, 2]]          # keep it a proper rotation of the pattern: a sign flip plus one swap
         P = P @ geom.CUBE_ROTS[rng.randrange(24)].T
     D = geom.diameter(P)
     atol = rng.choice(atols or geom.ATOLS)
@@ -164,6 +173,11 @@ def gen_find_world(rng, max_atoms=48, max_copies=6, families=None, cell_families
         if pose == "antiparallel":
             # proper rotation by pi about an axis perpendicular to the pattern's axis: maps the axis onto its negative
             ax = P[a2] - P[a1]
+            if axis_exact and np.abs(np.abs(ax) - np.abs(ax).max()).max() < 1e-12:
+                # body diagonal: the exact half turn about (sign0 e0 - sign1 e1)/sqrt(2), an integer matrix
+                sg = np.sign(ax)
+                ab = -sg[0] * sg[1]
+                return np.array([[0.0, ab, 0.0], [ab, 0.0, 0.0], [0.0, 0.0, -1.0]])
             if axis_exact:
                 k = int(np.argmax(np.abs(ax)))
                 perp = np.zeros(3)
@@ -275,18 +289,30 @@ def gen_find_world(rng, max_atoms=48, max_copies=6, families=None, cell_families
         ndec = rng.randint(0, 4)
         big_oop = n >= 13 and geom.plane_normal(P, 3.0 * atol) is not None
         for dnum in range(ndec + (1 if big_oop else 0)):
-            kind = rng.choice(["mirror", "nearmiss", "gray", "partial", "distractor", "distractor", "outofplane", "outofplane", "prefix_twin"])
+            kind = rng.choice(["mirror", "nearmiss", "gray", "partial", "distractor", "distractor", "outofplane", "outofplane", "prefix_twin", "buckled"])
             twin_els = None
             if kind == "prefix_twin":
                 # an exact copy in which one element is replaced by an element whose symbol merely STARTS with it (C -> Cl, N -> Ni...)
+                # ... or, the other way round, by the one-letter element its symbol begins with (Cl -> C, Br -> B)
                 cands = sorted(set(e for e in els if e in PREFIX_TWINS))
                 if not cands:
                     kind = "mirror"
                 else:
-                    e0 = rng.choice(cands)
+                    e0 = els[0] if (els[0] in cands and rng.random() < 0.7) else rng.choice(cands)   # the search starts from pattern atom 0
                     tw = rng.choice(PREFIX_TWINS[e0])
                     twin_els = [tw if e == e0 else e for e in els]
-            nrm_pat = geom.plane_normal(P, 3.0 * atol) if kind == "outofplane" else None
+            if big_oop and rng.random() < 0.3:
+                kind = "buckled"
+            nrm_pat = geom.plane_normal(P, 3.0 * atol) if kind in ("outofplane", "buckled") else None
+            if kind == "buckled" and nrm_pat is None and n >= 3:
+                # a collinear pattern can be bent in any direction perpendicular to its line
+                ax_ = P[-1] - P[0]
+                h_ = np.linalg.norm(np.cross(P - P[0], ax_), axis=1) / max(np.linalg.norm(ax_), 1e-12)
+                if h_.max() < 1e-6:
+                    nrm_pat = np.cross(ax_, [0.3, 0.5, 0.8])
+                    nrm_pat = nrm_pat / np.linalg.norm(nrm_pat)
+            if kind == "buckled" and (nrm_pat is None or n < 7):
+                kind = "outofplane" if nrm_pat is not None and geom.plane_normal(P, 3.0 * atol) is not None else "mirror"
             if kind == "outofplane" and nrm_pat is None:
                 kind = "mirror"
             if big_oop and dnum == ndec:
@@ -314,6 +340,11 @@ def gen_find_world(rng, max_atoms=48, max_copies=6, families=None, cell_families
                         amp = rng.uniform(3.6, max(3.7, 0.97 * math.sqrt(n)))
                     X[rng.randrange(n)] += nrm_pat * atol * rng.choice([-1, 1]) * amp
                     X = X @ R.T
+                elif kind == "buckled":
+                    # a planar pattern bent smoothly ALONG THE ATOM ORDER: consecutive atoms differ by less than the tolerance, the
+                    # middle of the list ends up several tolerances out of the plane (pair distances change only to second order)
+                    prof = np.array([min(i, n - 1 - i) for i in range(n)], float) * rng.uniform(max(0.6, min(0.93, 5.2 / (n - 1))), 0.95)
+                    X = (P + np.outer(prof, nrm_pat) * atol * rng.choice([-1, 1])) @ R.T
                 elif kind == "prefix_twin":
                     X = P @ R.T
                 elif kind == "partial":
